@@ -311,8 +311,20 @@ def check_percolation(path, max_nodes, label, free_inputs=False):
     funs = dict(parse_bnet(text))
     for nm in inputs:
         funs[nm] = nm       # a free input never changes: its dynamics are those of the identity
-    sd = biobalm.SuccessionDiagram.from_rules(text)
     fails, q = [], 0
+    if free_inputs:
+        # percolate_network is a public function of its own: it is handed the network as AEON loads it (free inputs have
+        # NO update function), not the copy a SuccessionDiagram prepares (which gives inputs the identity function)
+        import types
+        import biodivine_aeon as ba
+        from biobalm.petri_net_translation import network_to_petrinet
+        bn0 = ba.BooleanNetwork.from_bnet(text).infer_valid_graph()
+        sd = types.SimpleNamespace(network=bn0, symbolic=ba.AsynchronousGraph(bn0))
+        pn0 = network_to_petrinet(bn0)
+        if any(d.get("kind") == "transition" and d.get("change") in inputs for _, d in pn0.nodes(data=True)):
+            fails.append(f"{label}: the Petri net has a transition that changes a free input")
+    else:
+        sd = biobalm.SuccessionDiagram.from_rules(text)
     V = {}
     var = lambda nm: V.setdefault(nm, z3.Bool("x_" + nm))
     F = {nm: parse_expr(e, var) for nm, e in funs.items()}
